@@ -168,10 +168,18 @@ def execute(case):
     except Exception as e:
         res.violate(f"write:raised:{exc_name(e)}", f"GeoJSON.write({kw}) raised {e!r}; {ctx}")
         return res.dict()
-    from dataiter import util
+    # the monitor opens the written file itself (standard library only): a path ending in .gz / .bz2 / .xz holds that compression
+    import bz2, gzip, lzma
+    raw = open(dst, "rb").read()
+    text = ""
     try:
-        with util.xopen(dst, "rt", encoding="utf-8") as f:
-            text = f.read()
+        if suffix:
+            try:
+                raw = {".gz": gzip.decompress, ".bz2": bz2.decompress, ".xz": lzma.decompress}[suffix](raw)
+            except Exception as e:
+                res.violate(f"write:not-compressed:{suffix}", f"GeoJSON.write to a path ending in {suffix} wrote bytes starting {raw[:12]!r}, which do not decompress ({e!r})")
+                return res.dict()
+        text = raw.decode("utf-8")
         written = json.loads(text)
         res.count("written-json-parsed")
     except Exception as e:
